@@ -658,6 +658,13 @@ func (s *Sim) checkRecheck(t *Trigger, c *Client, rid string) {
 			return
 		}
 	}
+	if c.DeletedSeen[rid] {
+		// the client has been told that the resource is deleted: the gateway has
+		// no subscription left to re-check (what it still sends of such a resource
+		// is the subject of C02)
+		s.stat("exempt.deleted", 1)
+		return
+	}
 	name, query := splitRID(c.expandCID(rid))
 	s.stat("oracle.C06.a", 1)
 	s.mu.Lock()
